@@ -13,6 +13,7 @@ import (
 	"sync"
 
 	gpb "github.com/openconfig/gnmi/proto/gnmi"
+	"github.com/openconfig/ygot/util"
 	"github.com/openconfig/ygot/ygot"
 	"github.com/openconfig/ygot/ytypes"
 	"google.golang.org/protobuf/proto"
@@ -31,6 +32,13 @@ type TreeLine struct {
 	Pruned conc.ATree `json:"pruned"`
 	Built  conc.ATree `json:"built"`
 	Pcf    conc.ATree `json:"pcf"`
+	// Q: the wildcard queries of the tree with the data paths each must select (mode query)
+	Q []TreeQuery `json:"q,omitempty"`
+}
+
+type TreeQuery struct {
+	Q []string   `json:"q"`
+	M [][]string `json:"m"`
 }
 
 // TreesCase is the replayable case.
@@ -120,6 +128,9 @@ func treesCmd(args []string) *rep.Result {
 	wg.Wait()
 	return res
 }
+
+// abstractQuery renders a query path for drift notes (abstract, so that notes de-duplicate).
+func abstractQuery(q []string) string { return "/" + strings.Join(q, "/") }
 
 // typesIn lists the corpus types of the leaves present in the abstract tree (for signatures).
 func typesIn(a *conc.ATree, x *conc.Ctx) []string {
@@ -534,6 +545,97 @@ func runTreeLaw(l *TreeLine, pkg *reg.Pkg, x *conc.Ctx, mode string, res *rep.Re
 		}
 	case "c11":
 		runC11(root, orig, pkg, x, res, tc, sig)
+	case "query":
+		// Extension beyond the listed properties: GetNode with wildcard keys selects exactly
+		// Match(t, q).  Disagreements are reported as EXT drift notes, never as violations.
+		sch, err := rootSchema(pkg)
+		if err != nil {
+			res.InfraErr("schema: %v", err)
+			return
+		}
+		for _, q := range l.Q {
+			gp, err := x.GNMIPath(q.Q, pkg)
+			if err != nil {
+				res.Skip(1)
+				continue
+			}
+			// a concrete key whose value is literally "*" cannot be told from a wildcard: unspecified
+			literalStar := false
+			if steps, err := x.Resolve(q.Q); err == nil {
+				for _, st := range steps {
+					for j, k := range st.Keys {
+						wild := false
+						for _, w := range st.Wild {
+							wild = wild || w == j
+						}
+						if !wild && conc.KeyString(k) == "*" {
+							literalStar = true
+						}
+					}
+				}
+			}
+			if literalStar {
+				res.Skip(1)
+				continue
+			}
+			want := map[string]bool{}
+			ok := true
+			for _, m := range q.M {
+				mp, err := x.GNMIPath(m, pkg)
+				if err != nil {
+					ok = false
+					break
+				}
+				want[pathString(mp)] = true
+			}
+			if !ok {
+				res.Skip(1)
+				continue
+			}
+			var nodes []*ytypes.TreeNode
+			gerr, pan := guard(func() error {
+				var err error
+				nodes, err = ytypes.GetNode(sch, root, gp, &ytypes.GetHandleWildcards{})
+				return err
+			})
+			res.Count("queries", 1)
+			if pan != "" {
+				res.Violate("C20", sig("C20", "panic"), "panic in GetNode(wildcards) "+pathString(gp)+": "+firstLine(pan), tc)
+				continue
+			}
+			got := map[string]bool{}
+			for _, n := range nodes {
+				// a node without data (an unset leaf of a matching entry) selects nothing
+				if n.Data == nil || util.IsValueNil(n.Data) {
+					continue
+				}
+				if e, ok := n.Data.(ygot.GoEnum); ok && reflect.ValueOf(e).Int() == 0 {
+					continue // an enumeration at UNSET
+				}
+				if rv := reflect.ValueOf(n.Data); rv.Kind() == reflect.Bool && rv.Type().Name() == "YANGEmpty" && !rv.Bool() {
+					continue // an unset leaf of type empty
+				}
+				got[pathString(n.Path)] = true
+			}
+			if gerr != nil && len(want) == 0 {
+				res.Count("queries_empty_error", 1) // nothing selected: NotFound is the documented answer
+				continue
+			}
+			if gerr != nil || !reflect.DeepEqual(got, want) {
+				kind := "leaf"
+				if len(q.Q) > 0 && strings.Contains(q.Q[len(q.Q)-1], "*") {
+					kind = "entry"
+				}
+				res.DriftNote(fmt.Sprintf("EXT query: GetNode(%s, wildcards) in %s selects %d of the %d expected nodes (error: %v) [%s target]", abstractQuery(q.Q), map[bool]string{true: "compressed", false: "uncompressed"}[pkg.Compressed], len(got), len(want), gerr != nil, kind))
+				res.Sample(map[string]interface{}{"query": pathString(gp), "got": keysOf(got), "want": keysOf(want), "err": fmt.Sprint(gerr), "variant": x.V.Name})
+				res.Count("queries_disagree", 1)
+			} else {
+				res.Count("queries_agree", 1)
+			}
+		}
+		if after := conc.Restrict(abs.Project(root, pkg), x.V); !abs.Equal(after, orig, true) {
+			res.Violate("C11", sig("C11", "getnode-wildcards-mutates"), "GetNode with wildcards changed the tree: "+strings.Join(abs.Diff(after, orig, true), "; "), tc)
+		}
 	case "c32":
 		// the plain shape also carries the unkeyed state list st/ul (derived state as well)
 		if len(l.T.Ct) > 0 || len(l.T.Lv) > 0 {
